@@ -7,7 +7,7 @@ EXPLANATION = (
     "Tag variant that nests tags - derived from the type definition through Box/Vec/FuncTag - and recurses on every nested "
     "field; (R2) every UnionFind::union call in unify() is dominated by the false edge of an occurs() check; (R3) union() "
     "always re-parents the operand proven Tag::Var; (R4) bindings are zipped only on the equal-length edge; (R5) "
-    "declarations are pre-tagged before the traversal; (R6) a module's tag variables are named by its own locator; (R7) identical tags are short-circuited before occurs() is consulted; (R8) occurs() is existential over nested tags; (R9) constrain() emits every equation of the kind rules (frozen census of 14 equations) with no early exit. Does not decide most-general-unifier correctness or "
+    "declarations are pre-tagged before the traversal; (R6) a module's tag variables are named by its own locator; (R7) identical tags are short-circuited before occurs() is consulted; (R8) occurs() is existential over nested tags; (R9) constrain() emits every equation of the kind rules (frozen census of 15 equations) with no early exit. Does not decide most-general-unifier correctness or "
     "order/renaming independence of the verdict, which compare results of runs.")
 EXPLANATION += ' Further clauses: (R10) the recursion verdict is a fix-point independent of declaration order and an unresolved tag is never a cut point (shared C09.R3); (R11) innermost-first lookup, i.e. shadowing independent of spelling (shared C08.R1); (R12) VAR-UNIFORM (shared C05.R7). (R13) REDUCE-FIRST - unify() reduces both operands before anything else reads them, in every recursive call; (R14) SCOPE-PAIRING (shared C08.R2). (R15) ERROR-CLASS - every error constructed by inference and type checking is InvalidType.'
 ASSUMPTIONS = ["union-find path walking terminates because parents[] only ever links a variable class under another representative (R2,R3)"]
@@ -22,6 +22,70 @@ CONSTRAINTS = [
     ('Application.lambda', 'Func'),
 ]
 STRUCTURAL = ['Terminal.inner', 'SubExpression.inner', 'Recursion.binding', 'Recursion.rhs', 'UnaryOp.operand']
+
+
+SCHEMA = ('Any', 'Array', 'Object', 'Primitive', 'Relation', 'Uri', 'Var')
+CONTENT_LIKE = ('Any', 'Array', 'Content', 'Object', 'Primitive', 'Relation', 'Uri', 'Var')
+PROPERTY = ('Property[Primitive]', 'Property[other]', 'Var')
+# frozen: the kinds each checked position admits (the language's kind rules, as type_check enforces them); position by
+# syntax node and accessor, one row per variant of the guarding enum; an unresolved tag (Var) passes everywhere (C05.R7)
+KIND_TABLE = {
+    'Array.inner': SCHEMA,
+    'ContentMeta.rhs[Media]': ('Text', 'Var'),
+    'ContentMeta.rhs[Headers]': SCHEMA,
+    'ContentMeta.rhs[Status]': ('Number', 'Status', 'Var'),
+    'Content.body': SCHEMA,
+    'Declaration.rhs': SCHEMA,              # of a reference `@name`
+    'Object.properties': PROPERTY,
+    'Property.rhs': SCHEMA,
+    'Relation.uri': ('Uri', 'Var'),
+    'Relation.transfers': ('Transfer', 'Var'),
+    'Resource.relation': ('Relation', 'Uri', 'Var'),
+    'Transfer.domain': CONTENT_LIKE,
+    'Transfer.range': CONTENT_LIKE,
+    'UnaryOp.operand[Optional]': PROPERTY,
+    'UnaryOp.operand[Required]': PROPERTY,
+    'UriVariable.inner': ('Property[Primitive]', 'Var'),
+    'VariadicOp.operands[Join]': ('Object', 'Var'),
+    'VariadicOp.operands[Any]': SCHEMA,
+    'VariadicOp.operands[Sum]': SCHEMA,
+    'VariadicOp.operands[Range]': CONTENT_LIKE,
+}
+
+
+def kind_table(c, facts, rule='C07.R20'):
+    """the kind each position admits is the language's: acceptance coincides with the solvability of *these* constraints.
+    A position checked with a neighbouring predicate (content-like for schema) or not checked any more accepts programs
+    whose kind constraints have no solution - and the evaluator's cast at that position panics."""
+    import kinds as K
+    R = c.rule(rule, 'KIND-TABLE: every checked position admits exactly the kinds of the language\'s kind rules (frozen table of 20 positions)')
+    c.rule('C01.R0', 'anchors')
+    T = K.Tables(c, facts)
+    have = {}
+    for r in T.check_side():
+        if not r.get('pos') or r['pos'][0] == '<param>' or not r.get('pred'):
+            continue
+        pos = '%s.%s' % r['pos']
+        adm = tuple(sorted(T.adm(r['pred'])))
+        variants = [v for _, vs in r['guard'] for v in vs] if r['guard'] else [None]
+        for v in variants:
+            have.setdefault(pos + ('[%s]' % v if v else ''), set()).add(adm)
+    inferred = set(p for p, _ in CONSTRAINTS)       # a check at these positions repeats an equation: dropping it changes no verdict
+    for pos, want in sorted(KIND_TABLE.items()):
+        got = have.get(pos)
+        if not got and pos in inferred:
+            c.ok(R, {'position': pos, 'admits': 'decided by the equation of inference::constrain alone (R9 census)'})
+        elif not got:
+            c.bad(R, 'position-unchecked:' + pos, 'type_check no longer checks the kind at %s (or in a form the tables cannot read): a program with the wrong kind there is accepted and the evaluator\'s cast panics' % pos)
+        elif got != {tuple(sorted(want))}:
+            d = sorted(set(x for g in got for x in g) ^ set(want))
+            c.bad(R, 'position-admits:%s:%s' % (pos, ','.join(d)), 'the kinds admitted at %s differ from the language\'s by %s: acceptance no longer coincides with the kind constraints' % (pos, d), admitted=[list(g) for g in got], expected=list(want))
+        else:
+            c.ok(R, {'position': pos, 'admits': list(want)})
+    extra = sorted(set(have) - set(KIND_TABLE))
+    for pos in extra:
+        c.skip(R, pos, 'a checked position the frozen table does not list')
+    c.floor(R, 'checked positions read from typecheck.rs', len(have), 14)      # 20 today; six repeat an equation of constrain()
 
 
 def constraint_census(c, facts):
@@ -42,11 +106,19 @@ def constraint_census(c, facts):
                 have.add(('%s.%s%s' % (r['pos'][0], r['pos'][1], sub), t))
         if r.get('other') and r['tags'] is None:
             have.add(('%s.%s' % r['other'], '='))
+            g = dict(r['guard'])
+            if r['pos'] == ('VariadicOp', 'operands') and 'Sum' in g.get('VariadicOperator', ()) and r['other'] != r['pos']:
+                # every alternative of `|` is equated with the operation itself (one kind for all of them)
+                have.add(('VariadicOp.operands[Sum]', '=node'))
     for pos, tag in CONSTRAINTS:
         if (pos, tag) in have:
             c.ok(R, {'equation': 'tag(%s) = %s' % (pos, tag)})
         else:
             c.bad(R, 'equation-missing:%s=%s' % (pos, tag), 'inference::constrain no longer emits tag(%s) = %s (or emits it in a form the census cannot recognise): programs violating that kind rule are accepted' % (pos, tag))
+    if ('VariadicOp.operands[Sum]', '=node') in have:
+        c.ok(R, {'equation': 'tag(VariadicOp.operands[Sum]) = tag(node), for every operand'})
+    else:
+        c.bad(R, 'equation-missing:VariadicOp.operands[Sum]=node', 'inference::constrain no longer equates every alternative of `|` with the operation (or in a form the census cannot recognise): `num | str | {}` has no common kind and is accepted')
     for pos in STRUCTURAL:
         if (pos, '=') in have:
             c.ok(R, {'equation': 'tag(node) = tag(%s)' % pos})
@@ -119,4 +191,5 @@ def run(c, facts):
     c.run(lambda c: I.identity_first(c, facts, c.rule('C07.R7', 'IDENTITY-FIRST: identical tags unify before the variable branches')))
     c.run(lambda c: I.occurs_existential(c, facts, c.rule('C07.R8', 'OCCURS-ANY: the occurs check is existential over nested tags')))
     c.run(lambda c: constraint_census(c, facts))
+    c.run(lambda c: kind_table(c, facts))
     c.run(lambda c: I.pre_tag(c, facts, c.rule('C07.R5', 'PRE-TAG: declarations tagged before traversal')))
